@@ -81,9 +81,10 @@ the solver *unites* them, so a solution accepted by the union need not be accept
 def D15_twoUppers (bs : List Bound) : Bool :=
   (uppers bs).any fun u => (uppers bs).any fun v => !le u v && !le v u
 
-/-- `anyUpper` (typevar.py:100-101): an upper bound is `Any`. `top.is_assignable(Any)` holds for
-every `top`, so `Any` *replaces* the upper bounds seen so far, which are then forgotten. -/
-def D15_anyUpper (bs : List Bound) : Bool := (uppers bs).any isAny
+/-! (`anyUpper` — an upper bound `Any` replacing the upper bounds seen so far — was repaired in /repo,
+commit 6dfe6d2 "an Any upper bound no longer discards the other upper bounds": the solver now skips
+an `Any` upper bound unless it is the first one, as it always did for lower bounds. No class is left
+for it; the former witnesses are regression theorems in Props/C15.lean and corpus cases.) -/
 
 /-- `oneOfUpper` (typevar.py:139-146): constraints together with an upper bound. The constraint is
 selected by `option.can_assign(solution)` only; nothing checks it against the upper bounds. -/
@@ -100,7 +101,6 @@ def multiOneOf (bs : List Bound) : Bool := decide (1 < (oneOfs bs).length)
 /-- the cheap classes, as printed by the driver -/
 def d15Cheap (bs : List Bound) : List String :=
   (if D15_twoUppers le bs then ["twoUppers"] else []) ++
-  (if D15_anyUpper bs then ["anyUpper"] else []) ++
   (if D15_oneOfUpper bs then ["oneOfUpper"] else [])
 
 def d15Classes (bs : List Bound) : List String :=
